@@ -20,6 +20,8 @@ func stringify0(v *val.Val, inProcess util.PtrSet) string {
 			return fmt.Sprintf("recursive-val %s@%p", v.Type, v)
 		} else {
 			inProcess.Add(v)
+			// 只有正在处理的祖先才算递归, 处理完需要移除, 否则共享的子结构会被误判成递归
+			defer inProcess.Remove(v)
 		}
 	}
 
